@@ -161,9 +161,38 @@ func init() {
 		})
 		e.Rep.Rule("complete product style x recv x reverse x src ptr/val x dst ptr/val x error x extra args x named x src local/imported x dst local/imported; " +
 			"non-trivial = accepted cell (each is a distinct signature shape) whose generated signature was compared with the reference builder")
+		// receiver of a type that comes from a DOT-imported package: imported all the same, must be rejected
+		for i, v := range []struct {
+			notes []string
+			sig   string
+		}{
+			{[]string{":recv r"}, "Conv(*S) *LD"},
+			{[]string{":style arg", ":recv r"}, "Conv(*S) *LD"},
+			{[]string{":style arg", ":recv r", ":reverse"}, "Conv(*S) *LD"},
+			{[]string{":recv r"}, "Conv(S) (LD, error)"},
+		} {
+			var sb strings.Builder
+			sb.WriteString("//go:build convergen\n\npackage x\n\nimport . \"example.com/m/ext\"\n\nvar _ EInt\n\ntype LD struct {\n\tA int\n\tB string\n}\n\ntype Convergen interface {\n")
+			for _, n := range v.notes {
+				sb.WriteString("\t// " + n + "\n")
+			}
+			sb.WriteString("\t" + v.sig + "\n}\n")
+			cells = append(cells, &scen.Cell{ID: fmt.Sprintf("c08dot_%d", i), Family: "signature", Files: map[string]string{"setup.go": sb.String()}, Meta: c08Meta{Style: 9, Recv: 1, SrcImp: 1, Named: i}})
+		}
 		e.Rep.Bound("extra_args_max", maxArgs-1)
 		e.Explore(cells, func(o *scen.Outcome, t *report.Tally) []report.Finding {
 			m := o.Cell.Meta.(c08Meta)
+			if m.Style == 9 {
+				// dot-imported receiver type: documented as illegal (receiver of an imported type)
+				t.AddEvaluations(1)
+				t.AddValidated(1)
+				t.Family("signature/illegal", false, false)
+				t.Outcome("rejected-illegal")
+				if o.Res.Exit == 0 {
+					return []report.Finding{{Key: fmt.Sprintf("C08|illegal-accepted|dot-imported-receiver|variant=%d", m.Named), What: "receiver of a dot-imported (i.e. imported) type was accepted"}}
+				}
+				return nil
+			}
 			want, legal := c08Expect(m, e.WS.PkgPath(o.Cell))
 			t.AddEvaluations(1)
 			t.AddValidated(1)
